@@ -27,7 +27,7 @@ def main():
         for m in json.load(open(os.path.join(V, 'tools', 'mutants.json'))):
             items.append(('planted', m['id'], [m['prop']], m))
     sd = os.path.join(V, 'seeded')
-    for d in sorted(os.listdir(sd)) if os.path.isdir(sd) else []:
+    for d in sorted(os.listdir(sd)) if (os.path.isdir(sd) and a.seeded) else []:
         mp = os.path.join(sd, d, 'meta.json')
         if os.path.exists(mp):
             meta = json.load(open(mp))
